@@ -97,9 +97,15 @@ func (m *MemoryTableSource) encodeRow(row map[string]any) []any {
 // []any tuple.
 func encodeKey(key any) string {
 	if vals, ok := key.([]any); ok {
+		if len(vals) == 1 {
+			return encodeOne(vals[0]) // same key as the bare value (Lookup/Delete accept either form)
+		}
 		parts := make([]string, len(vals))
 		for i, v := range vals {
-			parts[i] = encodeOne(v)
+			// length prefix: a component that itself contains the separator cannot shift the boundary
+			// (("a\x1fs:b","c") and ("a","b\x1fs:c") used to share one key)
+			p := encodeOne(v)
+			parts[i] = strconv.Itoa(len(p)) + ":" + p
 		}
 		return strings.Join(parts, "\x1f")
 	}
